@@ -203,9 +203,12 @@ def construct(cx):
             return
         dt = DTYPES[(rep + L) % 4]
         tol = _tol(dt)
-        phys = _dims_choices(rng, L)
-        if rep % 2 == 0:
-            phys = [phys[0]] * L   # uniform physical dimension (needed by fill_empty_sites, from_dense(dims=int))
+        while True:
+            phys = _dims_choices(rng, L)
+            if rep % 2 == 0:
+                phys = [phys[0]] * L   # uniform physical dimension (needed by fill_empty_sites, from_dense(dims=int))
+            if int(np.prod(phys)) <= 300:
+                break
         bonds = _dims_choices(rng, L, 4)
         p = dict(L=L, cyclic=cyclic, dtype=dt, phys=phys, bonds=bonds, rep=rep)
 
@@ -504,7 +507,7 @@ def _basis(bits, dt):
         bound="every named MPS / MPO generator of tensor_builder (rand_state, product_state, computational_state, "
               "neel, COPY, ghz, w, zero, rand_computational, sampler, identity(+_like, sites), zeros(+_like), "
               "product_operator, rand, rand_herm, MPO.rand_state / identity) for L 1..6 (thorough 1..8), 4 dtypes, open and "
-              "periodic where accepted, site-dependent physical dims; reference: explicit dense vectors / Kronecker products")
+              "periodic where accepted, site-dependent physical dims, dense operator dimension <= 1100; reference: explicit dense vectors / Kronecker products")
 def generators(cx):
     import quimb.tensor as qtn
 
@@ -554,6 +557,9 @@ def generators(cx):
         cx.check("MPS_w_state == sum_i |0..1_i..0>/sqrt L", dict(p, single_site=(L == 1)), t_w)
 
         for d in (1, 2, 3):
+            if d ** L > 7000:
+                continue
+
             def t_copy(d=d):
                 psi = qtn.MPS_COPY(L, phys_dim=d, dtype=dt)
                 ref = np.zeros([d] * L, dtype=dt)
@@ -583,7 +589,10 @@ def generators(cx):
             cx.check("MPS_computational_state == Kronecker product of the named single-site vectors",
                      dict(p, bits=bits, cyclic=cyclic, ints=as_ints), t_comp)
 
-            phys = _dims_choices(rng, L)
+            while True:
+                phys = _dims_choices(rng, L)
+                if int(np.prod(phys)) <= 1100:
+                    break
             vecs = [_rnd(rng, (d,), dt) for d in phys]
 
             def t_prod(vecs=vecs, cyclic=cyclic, phys=phys):
@@ -610,6 +619,9 @@ def generators(cx):
             cx.check("MPO_product_operator == Kronecker product (rows = upper)", dict(p, cyclic=cyclic, phys=phys), t_prodop)
 
             for d, bd in ((2, 1), (3, 2), (1, 3)):
+                if d ** L > 1100:
+                    continue
+
                 def t_zero(cyclic=cyclic, d=d, bd=bd):
                     psi = qtn.MPS_zero_state(L, bond_dim=bd, phys_dim=d, cyclic=cyclic, dtype=dt)
                     if psi.L != L or np.dtype(psi.dtype) != np.dtype(dt):
@@ -633,6 +645,9 @@ def generators(cx):
                          dict(p, cyclic=cyclic, d=d, bond_dim=bd), t_zero, nontrivial=False)
 
             for d in (1, 2, 3):
+                if d ** L > 1100:
+                    continue
+
                 def t_id(cyclic=cyclic, d=d):
                     A = qtn.MPO_identity(L, phys_dim=d, dtype=dt, cyclic=cyclic)
                     if A.L != L or bool(A.cyclic) != cyclic or np.dtype(A.dtype) != np.dtype(dt):
@@ -707,7 +722,7 @@ def generators(cx):
             for herm in (False, True):
                 for normalize in (True, False):
                     def t_mporand(cyclic=cyclic, bd=bd, herm=herm, normalize=normalize, seed=seed):
-                        d = 2 + seed % 2
+                        d = 2 + (seed % 2 if L <= 5 else 0)
                         if herm and bool(seed % 3 == 0) and not cyclic:
                             A = qtn.MPO_rand_herm(L, bd, phys_dim=d, normalize=normalize, dtype=dt, seed=seed)
                         else:
@@ -1518,7 +1533,9 @@ def compress_methods(cx):
             cap = {"rank": rank, "chi": chi_in, "none": None, "big": chi_in + 3, "half": max(1, rank // 2), "one": 1}[capmode]
             opts = dict(method=method, max_bond=cap, sweep_reverse=reverse, normalize=normalize, equalize_norms=eqn,
                         inplace=inplace)
-            if cutoff is not None:
+            if cutoff is not None and not (kind == "mps+same" and "projector" in method):
+                # (the projector guess divides by the singular values it keeps: cutoff = 0 on an exactly rank-deficient
+                # input is outside its meaningful domain)
                 opts["cutoff"] = cutoff
             if "src" in method or method in ("fit", "fit-oversample"):
                 opts["seed"] = seed % 1000
@@ -1741,9 +1758,12 @@ def flat(cx):
                         x.left_canonize()
                         x.right_compress(start=hi, stop=lo, **opts)
                     after = list(x.bond_sizes())
-                    # bonds lo..hi-1 were swept; with a canonical gauge only when the sweep starts at the centre
+                    # bonds lo..hi-1 were swept; the truncation happens in a canonical gauge only when the sweep starts at the
+                    # centre (site 0 / L-1): otherwise exactness is promised from the bond dimension on only
                     swept = list(range(lo, hi))
-                    e = judge(x, d_in, ranks, rank, cap, None, bound=False, bonds_checked=swept)
+                    at_centre = (lo == 0) if side == "left" else (hi == L - 1)
+                    e = judge(x, d_in, ranks, rank, cap, None, bound=at_centre, bonds_checked=swept,
+                              exact_from=None if at_centre else max(before))
                     if e:
                         return e
                     for k in range(L - 1):
